@@ -41,6 +41,8 @@ pub struct HSchema {
     pub dval: Field,
     pub sval: Field,
     pub bval: Field,
+    /// JSON object {"code": val (i64, when present), "flag": id is even, "w": first body word}
+    pub attrs: Field,
 }
 
 pub const SORT_FIELDS: [&str; 6] = ["val", "uval", "fval", "dval", "sval", "bval"];
@@ -58,6 +60,7 @@ pub fn hschema() -> HSchema {
     let dval = b.add_date_field("dval", FAST | STORED);
     let sval = b.add_text_field("sval", STRING | FAST | STORED);
     let bval = b.add_bytes_field("bval", FAST | STORED);
+    let attrs = b.add_json_field("attrs", TEXT | STORED);
     HSchema {
         schema: b.build(),
         id,
@@ -71,6 +74,7 @@ pub fn hschema() -> HSchema {
         dval,
         sval,
         bval,
+        attrs,
     }
 }
 
@@ -103,6 +107,15 @@ impl MDoc {
         if self.pad > 0 {
             d.add_bytes(hs.pad, &vec![0u8; self.pad]);
         }
+        let mut obj: BTreeMap<String, tantivy::schema::OwnedValue> = BTreeMap::new();
+        if let Some(v) = self.val {
+            obj.insert("code".into(), tantivy::schema::OwnedValue::I64(v));
+        }
+        obj.insert("flag".into(), tantivy::schema::OwnedValue::Bool(self.id % 2 == 0));
+        if let Some(w) = self.body.first() {
+            obj.insert("w".into(), tantivy::schema::OwnedValue::Str(WORDS[*w as usize].to_string()));
+        }
+        d.add_object(hs.attrs, obj);
         d
     }
     pub fn brief(&self) -> Value {
@@ -120,6 +133,10 @@ pub enum Pred {
     WordAndGrp(u8, u64),
     WordNotTag(u8, u8),
     All,
+    /// JSON numeric term attrs.code:v
+    Code(i64),
+    /// JSON boolean term attrs.flag:b
+    Flag(bool),
 }
 
 impl Pred {
@@ -133,6 +150,8 @@ impl Pred {
             Pred::WordAndGrp(w, g) => d.body.contains(w) && d.grp == *g,
             Pred::WordNotTag(w, t) => d.body.contains(w) && d.tag != *t,
             Pred::All => true,
+            Pred::Code(v) => d.val == Some(*v),
+            Pred::Flag(b) => (d.id % 2 == 0) == *b,
         }
     }
     pub fn term(&self, hs: &HSchema) -> Option<Term> {
@@ -141,6 +160,16 @@ impl Pred {
             Pred::Tag(t) => Some(Term::from_field_text(hs.tag, TAGS[*t as usize])),
             Pred::Word(w) => Some(Term::from_field_text(hs.body, WORDS[*w as usize])),
             Pred::Id(i) => Some(Term::from_field_u64(hs.id, *i)),
+            Pred::Code(v) => {
+                let mut t = Term::from_field_json_path(hs.attrs, "code", false);
+                t.append_type_and_fast_value(*v);
+                Some(t)
+            }
+            Pred::Flag(b) => {
+                let mut t = Term::from_field_json_path(hs.attrs, "flag", false);
+                t.append_type_and_fast_value(*b);
+                Some(t)
+            }
             _ => None,
         }
     }
@@ -172,6 +201,8 @@ impl Pred {
             Pred::WordAndGrp(..) => "word&grp",
             Pred::WordNotTag(..) => "word-tag",
             Pred::All => "all",
+            Pred::Code(_) => "json-code",
+            Pred::Flag(_) => "json-flag",
         }
     }
 }
@@ -306,6 +337,9 @@ impl HistGen {
         }
     }
     pub fn pred(&mut self, rng: &mut Rng, groups: u64, term_only: bool) -> Pred {
+        if rng.chance(1, 8) {
+            return if rng.chance(1, 6) { Pred::Flag(rng.bool()) } else { Pred::Code(rng.irange(-20, 20)) };
+        }
         let k = if term_only { rng.below(4) } else { rng.below(8) };
         match k {
             0 => Pred::Grp(rng.below(groups)),
@@ -713,6 +747,17 @@ pub fn compare_searcher(
         let p = Pred::Grp(g);
         let want = expected.values().filter(|d| p.matches(d)).map(|d| d.id).collect();
         check_query(format!("grp:{g}"), &*p.query(hs), want);
+    }
+    let codes: BTreeSet<i64> = expected.values().filter_map(|d| d.val).collect();
+    for v in codes {
+        let p = Pred::Code(v);
+        let want = expected.values().filter(|d| p.matches(d)).map(|d| d.id).collect();
+        check_query(format!("json-code:{v}"), &*p.query(hs), want);
+    }
+    for b in [true, false] {
+        let p = Pred::Flag(b);
+        let want = expected.values().filter(|d| p.matches(d)).map(|d| d.id).collect();
+        check_query(format!("json-flag:{b}"), &*p.query(hs), want);
     }
     for (lo, hi) in [(-20, 20), (-5, 5), (0, 0), (7, 20)] {
         let p = Pred::ValRange(lo, hi);
